@@ -1,0 +1,30 @@
+// SPDX-License-Identifier: GPL-3.0-or-later
+
+//go:build verif
+// +build verif
+
+package routing
+
+import "github.com/dtn7/dtn7-go/pkg/bpv7"
+
+// This file exposes the sequence number keeper for external runtime verification (build tag verif).
+
+// VerifIdKeeper wraps an IdKeeper as created for a Core.
+type VerifIdKeeper struct {
+	keeper IdKeeper
+}
+
+// VerifNewIdKeeper creates an IdKeeper the way NewCore does.
+func VerifNewIdKeeper() *VerifIdKeeper {
+	return &VerifIdKeeper{keeper: NewIdKeeper()}
+}
+
+// Update assigns the bundle's sequence number, as Core.SendBundle does.
+func (v *VerifIdKeeper) Update(bndl *bpv7.Bundle) {
+	v.keeper.update(bndl)
+}
+
+// VerifAssignSequenceNumber lets the Core's own IdKeeper number the bundle, as Core.SendBundle does first.
+func (c *Core) VerifAssignSequenceNumber(bndl *bpv7.Bundle) {
+	c.idKeeper.update(bndl)
+}
